@@ -160,12 +160,23 @@ theorem rstep_openPhrase (sh : Shared D L) : RStep sh.com (openPhrase env sh) :=
   · exact rstep_newPhrase env sh sh' t h1
   · exact ((Reach.pushCursor _).trans (Reach.clampCursor _)).trans (Reach.popCursor _)
 
+theorem rstep_openSymbol (sh : Shared D L) : RStep sh.com (openSymbol env sh) := by
+  intro sh' t h
+  obtain ⟨rfl, _⟩ := openSymbol_cases env h
+  exact Reach.refl _
+
+theorem rstep_openSpecialSymbol (sh : Shared D L) (sym : Sym) : RStep sh.com (openSpecialSymbol env sh sym) := by
+  intro sh' t h
+  rcases openSpecialSymbol_cases env h with ⟨h1, _⟩ | ⟨_, rfl⟩
+  · exact rstep_newSpecialSymbol sh sym sh' t h1
+  · exact ((Reach.pushCursor _).trans (Reach.clampCursor _)).trans (Reach.popCursor _)
+
 theorem rstep_startSelecting (sh : Shared D L) : RStep sh.com (startSelecting env sh) := by
   unfold startSelecting
   repeat' split
   all_goals first
     | exact rstep_openPhrase env _
-    | exact rstep_newSpecialSymbol _ _
+    | exact rstep_openSpecialSymbol env _ _
     | rstep_leaf (Reach.refl _)
 
 theorem rstep_startSelectingOrInputSpace (sh : Shared D L) :
@@ -174,7 +185,7 @@ theorem rstep_startSelectingOrInputSpace (sh : Shared D L) :
   repeat' split
   all_goals first
     | exact rstep_openPhrase env _
-    | exact rstep_newSpecialSymbol _ _
+    | exact rstep_openSpecialSymbol env _ _
     | rstep_leaf (Reach.refl _)
 
 theorem rstep_learnTrans (sh : Shared D L) (a b : Nat) :
@@ -197,6 +208,7 @@ theorem rstep_enteringDefault (sh : Shared D L) (ev : KeyEvent) : RStep sh.com (
     | exact rstep_inputChar _ _
     | exact rstep_chineseFallback _ _
     | exact rstep_chineseFallback { sh with syl := (env.keyPress sh.syl ev).2 } ev
+    | exact rstep_openSymbol env _
     | rstep_leaf (Reach.refl _)
 
 theorem rstep_enteringBackspace (sh : Shared D L) : RStep sh.com (enteringBackspace sh) := by
@@ -210,6 +222,7 @@ theorem rstep_enteringCtrlDigit (sh : Shared D L) (c : Nat) : RStep sh.com (ente
   repeat' (first | split | (dsimp only; split))
   all_goals first
     | exact rstep_learnTrans env _ _ _
+    | exact rstep_openSymbol env _
     | rstep_leaf (Reach.refl _)
 
 theorem rstep_enteringTabInside (sh : Shared D L) : RStep sh.com (enteringTabInside env sh) := by
@@ -507,7 +520,11 @@ theorem select_reach (s : Selecting) (sh : Shared D L) (n : Nat) :
         split
         · rename_i sym y' hq
           exact OutAll.map (hfin sh sym rfl)
-        · exact Reach.refl _
+        · split
+          · exact Reach.popCursor _
+          · exact Reach.refl _
+          · trivial
+          · trivial
         · trivial
         · trivial
       · -- special
